@@ -91,6 +91,7 @@ type Env struct {
 	Faults   map[string]int
 	Known    map[string]int // known finding id -> times seen in this run
 
+	shape uint64
 	calls []*Call
 	// TimeJitter, if >0, offers explicit time steps as schedulable actions.
 	TimeJitter []time.Duration
@@ -142,6 +143,15 @@ func NewEnv(sim *simrt.Sim, sch *Schema, property string) (*Env, error) {
 	sim.Extra = e.extra
 	return e, nil
 }
+
+// ShapeAdd folds a workload-shape element (operation kinds, outcome) into the
+// run signature, so that distinctness counts histories as well as schedules.
+func (e *Env) ShapeAdd(s string) {
+	h := sha256.Sum256([]byte(fmt.Sprintf("%x|%s", e.shape, s)))
+	e.shape = uint64(h[0]) | uint64(h[1])<<8 | uint64(h[2])<<16 | uint64(h[3])<<24 | uint64(h[4])<<32 | uint64(h[5])<<40 | uint64(h[6])<<48 | uint64(h[7])<<56
+}
+
+func (e *Env) Shape() uint64 { return e.shape }
 
 func (e *Env) NextSeq() int { e.seq++; return e.seq }
 
